@@ -12,6 +12,10 @@
 // zone transitions. Each instant is run through the real helpers (compiled
 // from templates, evaluated through BuildKey) for every named format, bucket
 // name and attribute; the oracle is calendar.go.
+//
+// Zone-name family (zonenames.go): every zone name the process can load x a
+// grid of probe instants x every helper, so that a tz argument that is
+// resolved to another zone than the database's shows.
 package main
 
 import (
@@ -210,11 +214,37 @@ func q(s string) string { return `"` + s + `"` }
 
 type zoneProgs struct {
 	z     *zone
-	tf    []*prog    // per namedFormats index
+	tf    []*prog    // per namedFormats index (nil: not selected)
 	tfDef *prog      // format omitted / empty
 	tp    [][2]*prog // per namedFormats index: [tz given, tz omitted]; nil unless roundTrip
-	bt    []*prog    // per bucketNames
+	bt    []*prog    // per bucketNames (nil: not selected)
 	ta    []*prog    // per attrs
+	tl    []*offsetlessProg
+	evals int64 // template evaluations made by checkInstant
+}
+
+// offsetlessProg: `time` with an explicit format and the zone as tz on text
+// that carries no offset (zone-name family; the parse family does this for the
+// main zones).
+type offsetlessProg struct {
+	st *textStyle
+	pc *parseCfg
+	p  *prog
+}
+
+// progSel: which templates buildProgsSel compiles; nil = all of them.
+type progSel struct {
+	formats, buckets map[string]bool
+	offsetless       []string // ids of offset-less text styles for {time text FORMAT tz}
+}
+
+// nameFamilySel: the templates of the zone-name family - every helper, every
+// attribute, one bucket spelling per bucket class, the formats that show the
+// clock, the date, the weekday, the numeric offset and the abbreviation.
+var nameFamilySel = &progSel{
+	formats:    map[string]bool{"UNIX": true, "RFC822": true, "RFC1123Z": true, "RFC3339": true, "NGINX": true, "DAY": true, "HOUR": true, "TIMEZONE": true, "NTZ": true, "WEEKDAY": true},
+	buckets:    map[string]bool{"n": true, "s": true, "minutes": true, "h": true, "day": true, "mo": true, "years": true},
+	offsetless: []string{"iso-space", "ANSIC"},
 }
 
 var attrs = []string{"weekday", "week", "yearweek", "quarter"}
@@ -234,10 +264,17 @@ func tzArg(z *zone) string {
 }
 
 // buildProgs compiles, from scratch, every per-instant template of a zone.
-func buildProgs(z *zone) *zoneProgs {
+func buildProgs(z *zone) *zoneProgs { return buildProgsSel(z, nil) }
+
+func buildProgsSel(z *zone, sel *progSel) *zoneProgs {
 	zp := &zoneProgs{z: z}
 	tz := tzArg(z)
 	for _, nf := range namedFormats {
+		if sel != nil && !sel.formats[nf.name] {
+			zp.tf = append(zp.tf, nil)
+			zp.tp = append(zp.tp, [2]*prog{})
+			continue
+		}
 		zp.tf = append(zp.tf, compile("{timeformat {0} "+nf.name+tz+"}"))
 		var pair [2]*prog
 		if nf.roundTrip {
@@ -252,10 +289,25 @@ func buildProgs(z *zone) *zoneProgs {
 		zp.tfDef = compile(`{timeformat {0} ""` + tz + "}")
 	}
 	for _, b := range bucketNames {
+		if sel != nil && !sel.buckets[b.name] {
+			zp.bt = append(zp.bt, nil)
+			continue
+		}
 		zp.bt = append(zp.bt, compile("{buckettime {0} "+b.name+" RFC3339"+tz+"}"))
 	}
 	for _, a := range attrs {
 		zp.ta = append(zp.ta, compile("{timeattr {0} "+a+tz+"}"))
+	}
+	if sel != nil {
+		for _, id := range sel.offsetless {
+			st := styleByID(id)
+			mode, fa := modeCustom, q(st.arg)
+			if st.named {
+				mode, fa = modeNamed, st.arg
+			}
+			pc := &parseCfg{helper: "time", mode: mode, tzGiven: true, a: st, b: st, tmpl: "{time {0} " + fa + tz + "}"}
+			zp.tl = append(zp.tl, &offsetlessProg{st: st, pc: pc, p: compile(pc.tmpl)})
+		}
 	}
 	return zp
 }
@@ -356,6 +408,7 @@ func (zp *zoneProgs) checkInstant(u int64, rep reporter) (nontrivial bool, diges
 	where := fmt.Sprintf("zone=%s unix=%d (%s, %s)", zp.z.label, u, c.rfc3339(), dayNames[c.wd])
 
 	run := func(helper string, p *prog, input string) (string, bool) {
+		zp.evals++
 		out, pn := p.eval(input)
 		if pn != "" {
 			rep("C18/panic/"+helper+"/"+panicClass(pn), fmt.Sprintf("%s on input %q panicked: %s\n%s", p.tmpl, input, pn, where))
@@ -371,6 +424,9 @@ func (zp *zoneProgs) checkInstant(u int64, rep reporter) (nontrivial bool, diges
 	// timeformat: "timeformat ... report[s] the calendar fields of that instant in that zone"
 	printed := make([]string, len(namedFormats))
 	for i, nf := range namedFormats {
+		if zp.tf[i] == nil {
+			continue
+		}
 		got, ok := run("timeformat", zp.tf[i], in)
 		if !ok {
 			continue
@@ -399,6 +455,9 @@ func (zp *zoneProgs) checkInstant(u int64, rep reporter) (nontrivial bool, diges
 		if nf.twoDigitYear && (c.Y < 1969 || c.Y > 2068) {
 			continue // a two-digit year does not carry the century
 		}
+		if off%60 != 0 {
+			continue // a numeric offset is written in hours and minutes: it does not carry the seconds of this offset
+		}
 		want := u
 		if nf.minutePrecision {
 			want = u - floorMod(u+int64(off), 60)
@@ -425,6 +484,9 @@ func (zp *zoneProgs) checkInstant(u int64, rep reporter) (nontrivial bool, diges
 	// buckettime: "report the calendar fields of that instant in that zone" (truncated to the bucket)
 	stamp := c.rfc3339()
 	for i, b := range bucketNames {
+		if zp.bt[i] == nil || off%60 != 0 { // (the stamp cannot carry an offset with seconds)
+			continue
+		}
 		got, ok := run("buckettime", zp.bt[i], stamp)
 		if !ok {
 			continue
@@ -443,6 +505,18 @@ func (zp *zoneProgs) checkInstant(u int64, rep reporter) (nontrivial bool, diges
 		if !c.attrOK(a, got) {
 			rep("C18/timeattr/"+a+"/wrong-value", fmt.Sprintf("%s returned %q; the calendar says weekday=%d (0=Sunday) ISO week=%d-W%d quarter=%d month=%d\n%s", zp.ta[i].tmpl, got, c.wd, c.isoY, c.isoW, c.quarter(), c.M, where))
 		}
+		digest += "|" + got
+	}
+
+	// time with the zone as tz on text without offset: "all datetimes are processed as UTC, unless explicit
+	// in the datetime itself, or overridden via a parameter" (documentation) - see refTime
+	for _, tl := range zp.tl {
+		text := tl.st.render(c)
+		got, ok := run("time", tl.p, text)
+		if !ok {
+			continue
+		}
+		judgeParsed(zp.z, tl.pc, tl.st, u, c, text, got, lazy(func() string { return where }), rep)
 		digest += "|" + got
 	}
 	return
@@ -614,6 +688,69 @@ func worker(w *runner.W) {
 	}
 	perInstant := int64(len(namedFormats) + 1 + len(bucketNames) + len(attrs) + 12)
 
+	// zone-name family: every zone name of the database x probe instants x every helper, see zonenames.go
+	sampled := false
+	for _, name := range zoneNameCandidates(w.Quick()) {
+		z := namedZone(name)
+		if z == nil {
+			caseNo++
+			if w.Owns(caseNo) {
+				w.Add("zone_name_candidates_not_loadable_not_judged", 1)
+			}
+			continue
+		}
+		// thorough: the larger probe set for every name but the host's posix/ and right/ copies of the database
+		probes := nameProbes(z, w.Quick() || nameClass(name) == "posix-or-right-tree-name")
+		first := true
+		for lo := 0; lo < len(probes); lo += nameBlockLen {
+			caseNo++
+			if !w.Owns(caseNo) {
+				continue
+			}
+			if w.Expired() {
+				return
+			}
+			hi := lo + nameBlockLen
+			if hi > len(probes) {
+				hi = len(probes)
+			}
+			setGlobals()
+			zp := buildProgsSel(z, nameFamilySel)
+			for _, p := range allProgs(zp) {
+				if p.cpanic != "" || p.cerr != "" {
+					c := Case{Kind: "zone-name", Zone: z.label, Prog: p.tmpl}
+					w.Violation("C18/zone-name/"+nameClass(name)+"/"+helperOf(p.tmpl)+"/rejected-zone-of-the-host-database", fmt.Sprintf("template %s did not compile: %s %s; time.LoadLocation(%q) succeeds in this process", p.tmpl, p.cerr, p.cpanic, name), c)
+				}
+			}
+			blk := probes[lo:hi]
+			nrep := nameFamilyRep(z, rep)
+			for i, u := range blk {
+				i, u := i, u
+				cur = func() Case {
+					return Case{Kind: "zone-name", Zone: z.label, Unix: u, Sequence: append([]int64{}, blk[:i+1]...)}
+				}
+				before := zp.evals
+				nt, digest := zp.checkInstant(u, nrep)
+				w.Eval(nt)
+				w.Add("zone_name_family_template_evaluations", zp.evals-before)
+				w.Add("zone_name_family_instants", 1)
+				w.Outcome("zone-name", z.label, digest)
+				if !sampled && w.WantSample() && nt && first && u%89 == 0 {
+					sampled = true
+					off, abbr := z.at(u)
+					w.Sample(Case{Kind: "zone-name", Zone: z.label, Unix: u, Local: calOf(u, off, abbr).rfc3339()})
+				}
+			}
+			if lo == 0 {
+				w.Add("zone_names", 1)
+			}
+			first = false
+		}
+	}
+	if w.Param("family", "all") == "zone-name" { // development aid (-p family=zone-name with VERIF_HARNESS=exprtime): this family only
+		return
+	}
+
 	for zoneNo, z := range zonesFor(w.Quick()) {
 		setGlobals()
 		for _, p := range allProgs(buildProgs(z)) {
@@ -767,6 +904,38 @@ func worker(w *runner.W) {
 	})
 }
 
+// zone-name family: a zone's probe instants are cut into blocks; one block =
+// one fresh compile of the family's templates evaluated over the block in order.
+const nameBlockLen = 64
+
+func helperOf(tmpl string) string {
+	t := strings.TrimPrefix(tmpl, "{")
+	if i := strings.IndexByte(t, ' '); i > 0 {
+		return t[:i]
+	}
+	return "helper"
+}
+
+// nameFamilyRep files what checkInstant reports for a zone of the zone-name
+// family under the family's own signatures: class of name x helper x failure
+// class (the check that failed is kept in the detail).
+func nameFamilyRep(z *zone, rep reporter) reporter {
+	cls := nameClass(z.label)
+	return func(sig, detail string) {
+		parts := strings.Split(sig, "/")
+		if len(parts) < 3 || parts[1] == "panic" || parts[1] == "compile" {
+			rep(sig, detail)
+			return
+		}
+		failure := "calendar-fields-of-another-zone"
+		if parts[len(parts)-1] == "error-marker" {
+			failure = "error-marker"
+		}
+		o, a := z.at(0)
+		rep("C18/zone-name/"+cls+"/"+parts[1]+"/"+failure, detail+fmt.Sprintf("\nzone-name family (check %s): tz argument %q is a zone of this process's database (time.LoadLocation succeeds; at unix 0 it is %s %+d s)", sig, z.label, a, o))
+	}
+}
+
 func parseCase(z *zone, pc *parseCfg, win []int64) Case {
 	c := Case{Kind: "parse", Zone: z.label, Prog: pc.tmpl, StyleA: pc.a.id, StyleB: pc.b.id, Window: append([]int64{}, win...)}
 	for i, u := range win {
@@ -782,15 +951,23 @@ func parseCase(z *zone, pc *parseCfg, win []int64) Case {
 
 func allProgs(zp *zoneProgs) []*prog {
 	var out []*prog
-	out = append(out, zp.tf...)
-	out = append(out, zp.tfDef)
-	for _, p := range zp.tp {
-		if p[0] != nil {
-			out = append(out, p[0], p[1])
+	add := func(ps ...*prog) {
+		for _, p := range ps {
+			if p != nil {
+				out = append(out, p)
+			}
 		}
 	}
-	out = append(out, zp.bt...)
-	out = append(out, zp.ta...)
+	add(zp.tf...)
+	add(zp.tfDef)
+	for _, p := range zp.tp {
+		add(p[0], p[1])
+	}
+	add(zp.bt...)
+	add(zp.ta...)
+	for _, tl := range zp.tl {
+		add(tl.p)
+	}
 	return out
 }
 
@@ -853,6 +1030,25 @@ func replay(w *runner.W, raw json.RawMessage) {
 					zp.checkInstant(u, rep)
 				}
 			}
+		}
+	case "zone-name":
+		z := namedZone(c.Zone)
+		if z == nil {
+			return
+		}
+		seq := c.Sequence
+		if len(seq) == 0 && c.Unix != 0 {
+			seq = []int64{c.Unix}
+		}
+		zp := buildProgsSel(z, nameFamilySel)
+		for _, p := range allProgs(zp) {
+			if (p.cpanic != "" || p.cerr != "") && (c.Prog == "" || c.Prog == p.tmpl) {
+				w.Violation("C18/zone-name/"+nameClass(z.label)+"/"+helperOf(p.tmpl)+"/rejected-zone-of-the-host-database", fmt.Sprintf("template %s did not compile: %s %s", p.tmpl, p.cerr, p.cpanic), cur)
+			}
+		}
+		nrep := nameFamilyRep(z, rep)
+		for _, u := range seq {
+			zp.checkInstant(u, nrep)
 		}
 	case "parse":
 		for _, z := range zonesFor(false) {
@@ -930,7 +1126,11 @@ func main() {
 			if tier == "thorough" {
 				more = ", Europe/London, Pacific/Auckland, Asia/Kathmandu, Pacific/Apia, America/Sao_Paulo"
 			}
-			return "zones {tz omitted, utc, Etc/GMT+5, America/New_York, Europe/Berlin, Australia/Lord_Howe, Asia/Kolkata, local(=America/St_Johns via time.Local)" + more + "} from the embedded time/tzdata x unix seconds in [1970-01-01, 2100-12-31]: " + days + " at local 00:00:00, 12:00:00, 23:59:59; +-2 s around every local month start (so every quarter and year start), " + weeks + " (Monday 00:00 local) and every change of the zone's offset/abbreviation (found by bisection over every day) x {timeformat in all 23 named formats + default; time round trip of the printed text for RUBY, RFC822Z, RFC1123Z, RFC3339, RFC3339N, NGINX with and without tz; buckettime for 23 spellings of the 7 buckets; timeattr weekday, week, yearweek, quarter}; one (zone, second) = ~75 template evaluations through BuildKey. Order of evaluation: the instants of a zone are cut into blocks of 28 consecutive enumerated instants (+4 of overlap, so every +-2 s neighbourhood lies inside a block); for every block all templates are compiled from scratch and the SAME compiled expressions are evaluated on the block in increasing and then in decreasing order (every instant is checked after its predecessor and after its successor), one case = one evaluation of an instant in such a sequence; durations likewise in blocks of consecutive values, both orders; each unparseable input is evaluated right after a parseable one on the same compiled expression. Plus durationformat/duration on whole seconds " + dur + " and a sweep to +-9223372036 (5 spellings each), and lists of unparseable inputs/arguments per helper. non-trivial = no helper returned an error marker or panicked for the (zone, second) or duration case; an unparseable-input case counts when the helper was reached and answered. PARSE FAMILY (history x configuration of every helper that reads date text through smartDateParseWrapper): per zone, windows of 5 consecutive enumerated instants (" + pwin + ") x {time; buckettime with buckets s, minutes, h, day, mo, years, nanos in rotation} x format argument {omitted, \"\", cache, auto, the named formats ANSIC UNIX RUBY RFC822 RFC822Z RFC1123 RFC1123Z RFC3339 RFC3339N NGINX, custom layouts 2006-01-02 15:04:05 | 2006-01-02T15:04:05 | 2006/01/02 15:04:05 | 01/02/2006 15:04:05 | 20060102150405 | 2006-01-02 15:04 | 2006-01-02 15:04:05 -0700 | 02/Jan/2006:15:04:05 -0700 | 2006-01-02 15:04:05 MST} x tz argument {the zone's own, omitted} x text written by the reference in 19 styles (7 without offset, 8 with numeric offset, 4 with the zone abbreviation); an explicit format gets the text of that format, the detecting modes get every style dateparse has a shape for (cache/\"\"/omitted: not the abbreviation styles); auto additionally over sequences alternating two styles A,B,A,B,A (" + ppairs + "). One case = ONE compiled expression evaluated over the window forwards and then backwards (9 evaluations), each answer compared (H) with a fresh compile of the same template evaluating only that text and (R) with the reference (numeric offset: the instant to the format's precision; no offset: an instant whose calendar fields in the tz argument's zone, UTC when omitted, are the text's; abbreviation: not constrained; a detecting mode may answer the error marker, an explicit format may not); non-trivial = every answer of the long-lived expression was a value. GARBAGE-SEQUENCE FAMILY (history of the detecting modes): per zone, " + gwin + " x {time; buckettime} x format argument {omitted, \"\", cache, auto} x tz argument {the zone's own, omitted} x every text style the mode is offered in the parse family (one layout per sequence) x every word over {V = the position's instant as a valid date, G = an entry that is not a date} of length 2..5 with one to three G and at least one V (47 words: garbage before, between and after the dates) x 12 rotations of the garbage alphabet {empty string, -, n/a, one blank, 0, 404, 12345, 99999999, -1, yesterday, hello world, the position's instant in the sequence's own style with hour 25} (the j-th G of a word is entry rotation+j, so every garbage entry stands at every G position) x " + gorder + ". One case = ONE compiled expression evaluated over the sequence forwards and then backwards; every garbage entry must yield an error marker, every valid date exactly what a fresh compile of the template answers for that text alone (garbage leaves no trace) and, when it is a value, the reference's instant/fields as in the parse family; non-trivial = every valid date of the sequence yielded a value and every garbage entry an error marker"
+			nameTrees, nameGrid, nameRoll := "without its posix/ and right/ trees", "Jan 15, Mar 20, Apr 15, Jul 15, Oct 15, Nov 2 of 1970, 1974, ... 2098 (every 4th year), 2007 and 2100", "the years 1970, 1987, 2006, 2007, 2024, 2038, 2100"
+			if tier == "thorough" {
+				nameTrees, nameGrid, nameRoll = "including its posix/ and right/ trees", "the 15th of every month, Mar 20 and Nov 2 of every year 1970..2100", "those years and every 4th year 1972..2100 (the names of the posix/ and right/ trees: the quick tier's instants)"
+			}
+			return "zones {tz omitted, utc, Etc/GMT+5, America/New_York, Europe/Berlin, Australia/Lord_Howe, Asia/Kolkata, local(=America/St_Johns via time.Local)" + more + "} from the embedded time/tzdata x unix seconds in [1970-01-01, 2100-12-31]: " + days + " at local 00:00:00, 12:00:00, 23:59:59; +-2 s around every local month start (so every quarter and year start), " + weeks + " (Monday 00:00 local) and every change of the zone's offset/abbreviation (found by bisection over every day) x {timeformat in all 23 named formats + default; time round trip of the printed text for RUBY, RFC822Z, RFC1123Z, RFC3339, RFC3339N, NGINX with and without tz; buckettime for 23 spellings of the 7 buckets; timeattr weekday, week, yearweek, quarter}; one (zone, second) = ~75 template evaluations through BuildKey. Order of evaluation: the instants of a zone are cut into blocks of 28 consecutive enumerated instants (+4 of overlap, so every +-2 s neighbourhood lies inside a block); for every block all templates are compiled from scratch and the SAME compiled expressions are evaluated on the block in increasing and then in decreasing order (every instant is checked after its predecessor and after its successor), one case = one evaluation of an instant in such a sequence; durations likewise in blocks of consecutive values, both orders; each unparseable input is evaluated right after a parseable one on the same compiled expression. Plus durationformat/duration on whole seconds " + dur + " and a sweep to +-9223372036 (5 spellings each), and lists of unparseable inputs/arguments per helper. non-trivial = no helper returned an error marker or panicked for the (zone, second) or duration case; an unparseable-input case counts when the helper was reached and answered. PARSE FAMILY (history x configuration of every helper that reads date text through smartDateParseWrapper): per zone, windows of 5 consecutive enumerated instants (" + pwin + ") x {time; buckettime with buckets s, minutes, h, day, mo, years, nanos in rotation} x format argument {omitted, \"\", cache, auto, the named formats ANSIC UNIX RUBY RFC822 RFC822Z RFC1123 RFC1123Z RFC3339 RFC3339N NGINX, custom layouts 2006-01-02 15:04:05 | 2006-01-02T15:04:05 | 2006/01/02 15:04:05 | 01/02/2006 15:04:05 | 20060102150405 | 2006-01-02 15:04 | 2006-01-02 15:04:05 -0700 | 02/Jan/2006:15:04:05 -0700 | 2006-01-02 15:04:05 MST} x tz argument {the zone's own, omitted} x text written by the reference in 19 styles (7 without offset, 8 with numeric offset, 4 with the zone abbreviation); an explicit format gets the text of that format, the detecting modes get every style dateparse has a shape for (cache/\"\"/omitted: not the abbreviation styles); auto additionally over sequences alternating two styles A,B,A,B,A (" + ppairs + "). One case = ONE compiled expression evaluated over the window forwards and then backwards (9 evaluations), each answer compared (H) with a fresh compile of the same template evaluating only that text and (R) with the reference (numeric offset: the instant to the format's precision; no offset: an instant whose calendar fields in the tz argument's zone, UTC when omitted, are the text's; abbreviation: not constrained; a detecting mode may answer the error marker, an explicit format may not); non-trivial = every answer of the long-lived expression was a value. GARBAGE-SEQUENCE FAMILY (history of the detecting modes): per zone, " + gwin + " x {time; buckettime} x format argument {omitted, \"\", cache, auto} x tz argument {the zone's own, omitted} x every text style the mode is offered in the parse family (one layout per sequence) x every word over {V = the position's instant as a valid date, G = an entry that is not a date} of length 2..5 with one to three G and at least one V (47 words: garbage before, between and after the dates) x 12 rotations of the garbage alphabet {empty string, -, n/a, one blank, 0, 404, 12345, 99999999, -1, yesterday, hello world, the position's instant in the sequence's own style with hour 25} (the j-th G of a word is entry rotation+j, so every garbage entry stands at every G position) x " + gorder + ". One case = ONE compiled expression evaluated over the sequence forwards and then backwards; every garbage entry must yield an error marker, every valid date exactly what a fresh compile of the template answers for that text alone (garbage leaves no trace) and, when it is a value, the reference's instant/fields as in the parse family; non-trivial = every valid date of the sequence yielded a value and every garbage entry an error marker" + ". ZONE-NAME FAMILY (the tz argument over every zone NAME, not a handful of zone shapes): names = the 598 names of the IANA database 2025b compiled into the harness (Area/City, Etc/*, the legacy short names EST MST HST EST5EDT CST6CDT MST7MDT PST8PDT WET CET MET EET UTC GMT GMT+0..., country and US/* links; resolved by the embedded time/tzdata on any host) + every file of the host's zoneinfo directory (" + nameTrees + "); a name is used when time.LoadLocation(name) succeeds in this process (others are counted and not judged) x probe instants per name: " + nameGrid + " at 12:00 UTC, and, for " + nameRoll + ", local 23:30:00, 23:59:59, next day 00:00:00, 00:30:00 at the end of Mar 31, Jun 30, Sep 30, Dec 31 and of the Sunday on/after Jan 15 and Jul 15 (last/first local hour of a day, ISO week, quarter, year) x {timeformat UNIX RFC822 RFC1123Z RFC3339 NGINX DAY HOUR TIMEZONE NTZ WEEKDAY + default; time round trip of RFC1123Z RFC3339 NGINX with and without tz; time on offset-less text (2006-01-02 15:04:05, ANSIC) with the name as tz; buckettime n s minutes h day mo years on RFC3339 text; timeattr weekday week yearweek quarter} = 30 template evaluations per (name, instant); the probes of a name are cut into blocks of 64, one fresh compile per block, evaluated in increasing order; oracle: offset/abbreviation of the loaded location at the second, every field recomputed by calendar.go; signatures C18/zone-name/<class of name>/<helper>/<failure>; non-trivial as for (zone, second)"
 		},
 		Assumptions: func(string) []string {
 			return []string{
@@ -941,6 +1141,7 @@ func main() {
 				"blank- and zero-padded days are both accepted in ANSIC/UNIX/NGINX; Sunday may be 0 or 7; only digit groups of buckettime/yearweek output are compared",
 				"durations are claimed for |seconds| <= 9223372036 (what a 64-bit nanosecond duration holds); which layouts cache/auto detection recognises is not part of the statement: a detecting mode may answer the error marker, but must answer what a fresh compile answers and, when it answers, the right instant",
 				"parse family: the documentation declares format omitted / \"\" / cache stateful (\"The first seen date will determine the format for all dates going forward\"), so those modes are only run over texts of one shape (same style, same field widths; entries of another shape are left out of the sequence) and never over abbreviation styles; text with a zone abbreviation is judged by history independence only (the statement speaks of numeric offsets); offset-less text is read in the tz argument's zone per the documentation (\"processed as UTC, unless explicit in the datetime itself, or overridden via a parameter\"), both instants accepted where a wall clock repeats; time.Local is pinned to America/St_Johns for tz=local",
+				"zone-name family: \"supported time zone\" = a name time.LoadLocation resolves in this process (documentation: \"utc, local, or a valid IANA Time Zone\"); which zone a name denotes is taken from that lookup (host zoneinfo directory first, embedded time/tzdata otherwise), so the set of names and their rules are those of the host the check runs on; a name the database does not have is not judged (the statement does not say whether further aliases may exist); an offset that is not a whole number of minutes (Africa/Monrovia before 1972) cannot be written as a numeric offset, so the round trip and buckettime on RFC3339 text are not demanded at such instants",
 				"garbage-sequence family: an entry that is not a date is not a \"seen date\" (documentation of cache) and is unparseable input (statement), so it must yield the error marker and leave no trace; the garbage alphabet holds only texts that are no date in any layout - texts dateparse itself reads as a date of some layout (a unix epoch number such as 1460653945, 2020, 3.14, 1.2.3.4) count as dates of ANOTHER layout and are not used; what a caching mode answers for a date of another layout after the first seen date (error marker, or a value because it detected again) is not judged in either direction: the documentation's sentence describes the shortcut, not a promise that other layouts fail - valid dates whose shape differs from the first valid date of a sequence are left out of it",
 			}
 		},
